@@ -41,7 +41,7 @@ func scaleFloats(v reflect.Value, f float64, depth int) {
 
 // scaleFloatsOnce: a value reachable twice (one strategy listed twice in a compound) is scaled once.
 func scaleFloatsOnce(v reflect.Value, f float64, depth int, seen map[uintptr]bool) {
-	if depth > 16 || f == 1 {
+	if depth > 64 || f == 1 {
 		return
 	}
 	switch v.Kind() {
@@ -86,7 +86,7 @@ func rescaleExported(v reflect.Value, k int, depth int) {
 }
 
 func rescaleExportedOnce(v reflect.Value, k int, depth int, seen map[uintptr]bool) {
-	if depth > 16 || k <= 1 {
+	if depth > 64 || k <= 1 {
 		return
 	}
 	switch v.Kind() {
